@@ -186,7 +186,21 @@ var templates = map[string]func(n, m int) string{
 	// table constructor with n positional fields, a keyed field every m fields, optional trailing call
 	"constructor": func(n, m int) string {
 		var b strings.Builder
-		b.WriteString("local function f() return 1, 2, 3 end\nlocal t = {")
+		// the constructor as the value of a local, or as an operand in a function without any local (m/100 selects)
+		use := m / 100
+		m = m % 100
+		switch use {
+		case 0:
+			b.WriteString("local function f() return 1, 2, 3 end\nlocal t = {")
+		case 1:
+			b.WriteString("return #{")
+		case 2:
+			b.WriteString("return ({")
+		case 3:
+			b.WriteString("x = x and {")
+		default:
+			b.WriteString("return 1 == {")
+		}
 		for i := 1; i <= n; i++ {
 			fmt.Fprintf(&b, "%d,", i)
 			if m > 1 && i%m == 0 {
@@ -196,7 +210,14 @@ var templates = map[string]func(n, m int) string{
 		if m%2 == 1 {
 			b.WriteString("f()")
 		}
-		b.WriteString("}\nreturn #t\n")
+		switch use {
+		case 0:
+			b.WriteString("}\nreturn #t\n")
+		case 2:
+			b.WriteString("})[3]\n")
+		default:
+			b.WriteString("}\n")
+		}
 		return b.String()
 	},
 	// call with n arguments / vararg forwarding
@@ -322,7 +343,7 @@ var grids = []grid{
 	{"locals", []int{1, 2, 50, 100, 150, 190, 195, 196, 197, 198, 199, 200, 201, 202, 250, 300}, []int{0}, false},
 	{"locals_captured", []int{1, 10, 59, 60, 61, 90, 98, 99, 100, 120}, []int{0}, false},
 	{"constants", []int{10, 250, 255, 256, 257, 258, 300, 511, 512, 513, 514, 600, 1000, 3000}, []int{0}, false},
-	{"constructor", []int{0, 1, 49, 50, 51, 99, 100, 101, 150, 500, 25549, 25550, 25551, 25552, 25599, 25600, 25601, 25650, 30000}, []int{0, 1, 2, 7, 50, 51}, true},
+	{"constructor", []int{0, 1, 49, 50, 51, 99, 100, 101, 150, 500, 25549, 25550, 25551, 25552, 25599, 25600, 25601, 25650, 30000}, []int{0, 1, 2, 7, 50, 51, 100, 101, 200, 207, 300, 301, 400}, true},
 	{"call_args", []int{0, 1, 2, 50, 100, 199, 200, 201, 249, 250, 251, 255, 256, 260}, []int{0, 1}, false},
 	{"nesting", []int{1, 2, 10, 50, 100, 150, 190, 195, 199, 200, 201, 220}, []int{0, 1, 2, 3}, false},
 	{"long_body", []int{1, 10, 1000, 131060, 131066, 131067, 131068, 131069, 131070, 131071, 131072, 131073, 131074, 131075, 131080, 140000, 262150}, []int{0, 1, 2, 3, 4, 5}, true},
